@@ -18,7 +18,7 @@ from stabilize.errors import is_transient
 from stabilize.handlers.base import StabilizeHandler
 from stabilize.handlers.complete_stage.planner import CompleteStagePlannerMixin
 from stabilize.handlers.complete_stage.split_logic import CompleteStagesSplitMixin
-from stabilize.models.stage import SplitType
+from stabilize.models.stage import SplitType, SyntheticStageOwner
 from stabilize.models.status import WorkflowStatus
 from stabilize.queue.messages import (
     CancelStage,
@@ -358,7 +358,10 @@ class CompleteStageHandler(
                 # Handle FAILED_CONTINUE propagation to parent
                 if (
                     status == WorkflowStatus.FAILED_CONTINUE
-                    and stage.synthetic_stage_owner is not None
+                    # only an AFTER-stage can finish its parent: a before-stage that failed
+                    # with continue notifies the parent like any other completed before-stage
+                    # (ContinueParentStage), otherwise the parent's tasks are never started
+                    and stage.synthetic_stage_owner == SyntheticStageOwner.STAGE_AFTER
                     and not stage.allow_sibling_stages_to_continue_on_failure
                     and stage.parent_stage_id is not None
                 ):
